@@ -454,6 +454,100 @@ func RunC18(tier string) int {
 			viol("holder-disturbed-by-interrupted-waiter", fmt.Sprintf("the build holding the lock ended with exit=%d timed_out=%v", hres.Exit, hres.TimedOut))
 		}
 	})
+	// fourth scenario: the signal arrives while a BUILD.star file is still being evaluated (a
+	// package whose Starlark code computes for a long time - here a counting loop far too long
+	// to finish inside the watch window): "at any moment" includes loading
+	e1.Parallel(tierN(tier, 3, 12), func(i int) {
+		r := rng.Derive(uint64(run.Seed), "C18-starlark", fmt.Sprint(i))
+		pf := spec.DefaultProfile()
+		pf.MinTargets, pf.MaxTargets = 2, 4
+		s := spec.Gen(r, pf)
+		env, err := e1.NewEnv(st.Base, fmt.Sprintf("s%d", i), st.Grog, st.Vctl, s, grog.Config{NumWorkers: r.Range(1, 4)})
+		if err != nil {
+			run.Infra(err.Error())
+			return
+		}
+		keep := false
+		defer func() {
+			if !keep {
+				env.Cleanup()
+			}
+		}()
+		hookLog := env.EnableHookLog()
+		inModule := r.Chance(1, 2)
+		slowDir := filepath.Join(env.WS, "zzslow")
+		_ = os.MkdirAll(slowDir, 0755)
+		spin := "def spin(n):\n    x = 0\n    for i in range(n):\n        x += i % 7\n    return x\n"
+		if inModule {
+			// the long computation sits in a module pulled in with load()
+			_ = os.WriteFile(filepath.Join(slowDir, "defs.star"), []byte(spin+"SPUN = spin(1000000000000)\n"), 0644)
+			_ = os.WriteFile(filepath.Join(slowDir, "BUILD.star"), []byte("load(\"defs.star\", \"SPUN\")\ntarget(name = \"slowpkg\", command = \"true\")\n"), 0644)
+		} else {
+			_ = os.WriteFile(filepath.Join(slowDir, "BUILD.star"), []byte(spin+"spin(1000000000000)\ntarget(name = \"slowpkg\", command = \"true\")\n"), 0644)
+		}
+		sig := rng.Pick(r, []syscall.Signal{syscall.SIGINT, syscall.SIGTERM})
+		delay := time.Duration(r.Range(300, 1500)) * time.Millisecond
+		res := env.M.Run([]string{"build"}, grog.RunOpts{Build: "b1", Timeout: 45 * time.Second,
+			AfterStart: func(pid int) {
+				time.Sleep(delay)
+				_ = syscall.Kill(pid, sig)
+			}})
+		endMono := monoNow()
+		run.Eval(1)
+		run.Count("builds_interrupted_during_starlark_evaluation", 1)
+		var cancelMono int64
+		for _, ev := range e1.ReadHookLog(hookLog) {
+			if ev.Name == "signal.cancelled" {
+				cancelMono = ev.Mono
+				break
+			}
+		}
+		where := "BUILD.star"
+		if inModule {
+			where = "loaded-module"
+		}
+		replay := map[string]any{"signal": sig.String(), "delay_ms": delay.Milliseconds(), "where": where, "stdout": tail(res.Stdout, 800), "stderr": tail(res.Stderr, 800)}
+		if cancelMono == 0 {
+			run.Inconclusive("signal not observed by grog during a long Starlark evaluation")
+			return
+		}
+		run.Nontrivial(fmt.Sprintf("starlark|%s|%s", sig, where))
+		obs := env.ReadTrace("b1")
+		switch {
+		case res.Crashed() != "":
+			keep = !run.Violation("crash-on-interrupt starlark-evaluation", "grog crashed when interrupted while evaluating a BUILD.star file: "+res.Crashed(), replay) || keep
+		case res.TimedOut:
+			since := time.Duration(endMono-cancelMono) * time.Nanosecond
+			if since > 30*time.Second {
+				keep = !run.Violation("no-exit-after-signal at=starlark-evaluation", fmt.Sprintf("grog was still evaluating a BUILD.star file (%s) %.0f s after it had observed %s: the evaluation is not stopped by the cancellation", where, since.Seconds(), sig), replay) || keep
+			} else {
+				run.Inconclusive("cap reached shortly after the signal")
+			}
+		case res.Exit == 0:
+			keep = !run.Violation("exit-zero-after-interrupt at=starlark-evaluation", "grog exited 0 after being interrupted while loading", replay) || keep
+		case len(obs.Started) > 0:
+			keep = !run.Violation("command-started-after-signal", fmt.Sprintf("commands %v ran although the build was interrupted while loading", obs.Started), replay) || keep
+		default:
+			run.Count("prompt_exits_during_starlark_evaluation", 1)
+		}
+		// recoverable: without the slow package the next build works and leaves reference bytes
+		_ = os.RemoveAll(slowDir)
+		_, obs2, vs, err := env.Step(e1.BuildOpts{}, e1.BuildCfg{EnableCache: true}, "after-interrupt", false)
+		if err != nil {
+			run.Infra(err.Error())
+			return
+		}
+		if obs2.Res.Exit != 0 {
+			keep = !run.Violation("followup-after-interrupt failed", "build after an interrupted load failed: "+tail(obs2.Res.Stdout+obs2.Res.Stderr, 400), replay) || keep
+			return
+		}
+		for _, v := range vs {
+			if v.Kind == "bytes" || v.Kind == "exec" {
+				keep = !run.Violation("followup-after-interrupt "+v.Sig, "after the interrupted load: "+v.What, replay) || keep
+				return
+			}
+		}
+	})
 	run.Assume("exec.CommandContext refuses to start a command once the context is cancelled; a command attempted before the cancellation may legitimately still start")
 	run.Assume("the interactive path is driven on a pseudo terminal that answers the colour / cursor queries like a terminal emulator; real terminal emulators are not involved")
 	return run.Finish()
